@@ -22,6 +22,8 @@
 #include <unordered_map>
 #include <list>
 
+#include "internal/verifhooks_i.h"
+
 namespace eventpp {
 
 struct TagHomo {};
